@@ -344,6 +344,31 @@ def main(argv=None):
         log('VERIF_SEED=%d tier=%s: %d files (+%d multi-conformation), %d cases in %d chunks' % (
             base, args.tier, len(chosen), len(multis), ncases, len(jobs)))
         regress = regressions(sc, log)
+        # base pass: the census expectation is 'groups of the complete
+        # structure whose defining atom survives'; a group the complete file
+        # does not report is not C12's business (it is excluded and noted)
+        base_files = {f: v for f, v in files.items() if v.get('census') and not v.get('expect_error')}
+        bj = {'files': base_files, 'cases': [[f, ['F0'], 'stream', []] for f in sorted(base_files)],
+              'report_labels': True}
+        bo = run_chunk(bj, sc)
+        if 'harness_error' in bo:
+            print('HARNESS-ERROR: ' + bo['harness_error'][-2000:])
+            return 2
+        base_missing = {f: m for f, m in bo.get('base_missing', {}).items() if m}
+        nexp = sum(bo.get('base_expected', {}).values())
+        nmiss = sum(len(m) for m in base_missing.values())
+        if nexp and nmiss * 2 > nexp:
+            print('HARNESS-ERROR: the census model disagrees with the complete structures on %d of %d '
+                  'groups - model out of sync with the code (label format changed?)' % (nmiss, nexp))
+            return 2
+        for f, m in base_missing.items():
+            files[f]['census_exclude'] = m
+            for j in jobs:
+                if f in j['files']:
+                    j['files'][f]['census_exclude'] = m
+        if base_missing:
+            log('groups not reported for the complete file (excluded from the census clause): %s'
+                % json.dumps(base_missing))
         outs = driver.pool_map(lambda j: run_chunk(j, sc), jobs)
         herr = [o['harness_error'] for o in outs if 'harness_error' in o]
         if herr:
@@ -387,7 +412,8 @@ def main(argv=None):
             keep, lost = M.apply_fault(recs, fault)
             text = M.render(recs, keep)
             cen = M.census(recs, cfg) if fobj.get('census') else []
-            pairs = [[lab, recs[idx][1]] for lab, idx in cen]
+            pairs = [[lab, recs[idx][1]] for lab, idx in cen
+                     if lab not in set(fobj.get('census_exclude') or [])]
             # confirm in a fresh process before reporting
             conf = literal_failure(text, fobj['stem'], f['delivery'], f['options'], pairs, sc,
                                    fobj.get('suffix', '.pdb'))
@@ -468,6 +494,8 @@ def main(argv=None):
                 'cases_per_hour': round(agg['cases'] / max(wall, 1e-9) * 3600),
                 'fixed_defect_replays': regress,
                 'failures_by_signature': {k: len(v) for k, v in by_sig.items()},
+                'census_groups_expected_on_complete_files': nexp,
+                'census_groups_excluded_because_unreported_on_complete_file': base_missing,
                 'components': {'real': ['all of propka/* from the working tree', 'filesystem', 'argparse/CLI entry'],
                                'simulated': ['the file delivered to the reader: durable remainder after a storage/transport fault'],
                                'stub': []},
